@@ -1,0 +1,23 @@
+//go:build verif
+// +build verif
+
+package hc
+
+// Accessors used only by the verification harness (build tag "verif").
+// They add no behaviour: both only read state of a transport.
+
+// VerifPort returns the TCP port a started ip transport listens on ("" when not started yet).
+func VerifPort(t Transport) string {
+	if ip, ok := t.(*ipTransport); ok && ip.server != nil {
+		return ip.server.Port()
+	}
+	return ""
+}
+
+// VerifTxtRecords returns the mDNS TXT records the ip transport currently advertises.
+func VerifTxtRecords(t Transport) map[string]string {
+	if ip, ok := t.(*ipTransport); ok {
+		return ip.config.txtRecords()
+	}
+	return nil
+}
